@@ -40,7 +40,8 @@ EXPECT_PROBES = ["pointer_unusable", "cas_conflict", "failed_pointer_write",
 POINTERS = ["missing", "empty", "whitespace", "noise", "badutf8", "legacy_nothing", "named_missing_low",
             "named_missing_high", "trailing_newline", "trailing_spaces", "stale", "legacy_layout", "intact",
             "unicode_digit", "circled_digit", "huge_number", "arabic_digits", "signed_number", "name_with_nul",
-            "name_uppercase_hex", "name_with_path", "name_huge_version", "name_unicode_version"]
+            "name_uppercase_hex", "name_with_path", "name_huge_version", "name_unicode_version",
+            "name_with_deep_path", "name_with_abs_path", "name_with_subdir", "name_with_backslash_path"]
 AFTER = ["load", "create_other", "append", "gc", "reopen"]
 
 
@@ -169,6 +170,16 @@ def _damage(w, ptr, latest_name, latest_ver, committed, view, tnow):
         _write_pointer(w, b"v1-DEADBEEF.metadata.json", tnow)
     elif ptr == "name_with_path":
         _write_pointer(w, b"../v1-deadbeef.metadata.json", tnow)
+    elif ptr == "name_with_deep_path":
+        # enough '..' hops to leave the table root: whatever the parser makes of it, storage's traversal guard must not
+        # turn the pointer into an exception at open time
+        _write_pointer(w, b"../../other/metadata/v1-deadbeef.metadata.json", tnow)
+    elif ptr == "name_with_abs_path":
+        _write_pointer(w, b"/etc/metadata/v1-deadbeef.metadata.json", tnow)
+    elif ptr == "name_with_subdir":
+        _write_pointer(w, b"metadata/" + latest_name.encode(), tnow)
+    elif ptr == "name_with_backslash_path":
+        _write_pointer(w, b"..\\..\\v1-deadbeef.metadata.json", tnow)
     elif ptr == "name_huge_version":
         _write_pointer(w, b"v" + b"9" * 5000 + b"-deadbeef.metadata.json", tnow)   # version beyond the int() digit limit
     elif ptr == "name_unicode_version":
